@@ -8,6 +8,7 @@ conjunction of their members.
 """
 from __future__ import annotations
 
+import os
 import random
 import re
 import warnings
@@ -44,6 +45,15 @@ _IMPLIED = [None]  # prefix of never-listed top packages of the architecture at 
 
 
 def outcome(cfg_or_rule, ev, acc):
+    if callable(cfg_or_rule) and not hasattr(cfg_or_rule, "assert_applies"):
+        # a thunk that builds the rule: a builder call that raises (e.g. a deprecated alias where warnings are errors)
+        # gives no verdict either
+        try:
+            cfg_or_rule = cfg_or_rule()
+        except Exception as e:  # noqa: BLE001
+            acc.evaluated()
+            acc.count("rules_whose_construction_raised")
+            return "error", str(e), type(e).__name__
     r = mk_rule(cfg_or_rule) if isinstance(cfg_or_rule, dict) else cfg_or_rule
     start = len(HUB.log)
     HUB.keep_log = True
@@ -124,7 +134,7 @@ def plan(tier, seed):
 
 def run_shard(spec, acc):
     rnd = random.Random(spec["seed"])
-    warnings.simplefilter("ignore")
+    (None if os.environ.get("PTA_WARNINGS_ARE_ERRORS") else warnings.simplefilter("ignore"))
     for i in range(spec["n"]):
         mods = random_tree(rnd, 7, 13)
         if i % 60 == 5:
@@ -173,7 +183,7 @@ def law_regex(rnd, ev, mods, imps, acc, forced=None):
     k1, rx1 = regexes_for(rnd, mods)
     k2, rx2 = regexes_for(rnd, mods)
     if forced:
-        verb, d, exc, side, rx1, rx2 = forced
+        verb, d, exc, side, rx1, rx2 = forced[:6]
     m1 = sorted(m for m in mods if re.match(rx1, m))
     m2 = sorted(m for m in mods if re.match(rx2, m))
     other_s, other_o = _other(rnd, mods), _other(rnd, mods)
@@ -202,8 +212,20 @@ def law_regex(rnd, ev, mods, imps, acc, forced=None):
         expansion = dict(compact, subs=[("named", m) for m in m1], objs=[("named", m) for m in m2])
         unmatched = not m1 or not m2
         nmatch = min(len(m1), len(m2))
-    case = {"kind": "regex", "mods": mods, "imps": imps, "implied": _IMPLIED[0], "forced": [verb, d, exc, side, rx1, rx2, other_s, other_o]}
+    poison = forced[8] if forced and len(forced) > 8 else (not forced and rnd.random() < 0.2)
+    case = {"kind": "regex", "mods": mods, "imps": imps, "implied": _IMPLIED[0], "forced": [verb, d, exc, side, rx1, rx2, other_s, other_o, poison]}
     HUB.case = case
+    if poison:
+        # the architecture is shared (a session fixture): an earlier rule on it named the same pattern in a batch next
+        # to a broken regular expression and raised half-way through - whatever it raised, this rule is another rule
+        from pytestarch import Rule
+
+        for pats in ([rx1, "(unclosed"], ["[z-a]", rx2]):
+            try:
+                Rule().modules_that().have_name_matching(pats).should().import_modules_that().have_name_matching(pats).assert_applies(ev)
+            except Exception:  # noqa: BLE001
+                pass
+        acc.count("regex_laws_after_a_rule_with_a_broken_regex_on_the_same_architecture")
     oc, msg, et = outcome(compact, ev, acc)
     acc.hist("regex_kind", f"{k1 if side != 'object' else k2}:{side}")
     if unmatched:
@@ -258,8 +280,8 @@ def law_partial(rnd, ev, mods, imps, acc, forced=None):
             return r.have_name_containing(pat) if use_partial else r.have_name_matching(rx)
         return r.are_named(other[1])
 
-    o1, m1, e1 = outcome(mk(True), ev, acc)
-    o2, m2, e2 = outcome(mk(False), ev, acc)
+    o1, m1, e1 = outcome(lambda: mk(True), ev, acc)
+    o2, m2, e2 = outcome(lambda: mk(False), ev, acc)
     acc.count("law_partial_pairs")
     acc.hist("partial_shape", shape)
     if not matched:
@@ -300,14 +322,14 @@ def law_partial_list(rnd, ev, mods, imps, acc, forced=None):
         r = getattr(getattr(r, verb)(), IMPORT_METHOD[(d, exc)])()
         return filt(r) if side == "object" else r.are_named(other[1])
 
-    o1, _m, e1 = outcome(mk("partial"), ev, acc)
+    o1, _m, e1 = outcome(lambda: mk("partial"), ev, acc)
     acc.count("law_partial_list_instances")
     if not m1 or not m2:
         acc.count("partial_list_with_unmatched_member")
         if o1 in ("pass", "fail"):
             HUB.violation("C11", "unmatched-partial-in-list-verdict", f"have_name_containing([{p1!r}, {p2!r}]): one pattern matches nothing but the rule produced the verdict '{o1}'", {"case": case})
         return
-    o2, _m2, e2 = outcome(mk("named"), ev, acc)
+    o2, _m2, e2 = outcome(lambda: mk("named"), ev, acc)
     if o1 != o2:
         HUB.violation("C11", "partial-list-vs-expansion", f"have_name_containing([{p1!r}, {p2!r}]) gave {o1}, naming the matched modules gave {o2}", {"case": case, "matched": sorted(set(m1 + m2))})
     if imps:
@@ -438,7 +460,7 @@ def law_batch_objects(rnd, ev, mods, imps, acc, forced=None):
 
 def replay(case, acc):
     rnd = random.Random(0)
-    warnings.simplefilter("ignore")
+    (None if os.environ.get("PTA_WARNINGS_ARE_ERRORS") else warnings.simplefilter("ignore"))
     mods, imps = case["mods"], [tuple(i) for i in case["imps"]]
     pre = case.get("implied")
     _IMPLIED[0] = pre
